@@ -148,6 +148,29 @@ type authParts struct {
 	Cookies []string `json:"cookies"` // cookies named like the hub's cookie, in order
 	Origin  string   `json:"origin"`
 	Referer string   `json:"referer"`
+	// QSpell: how the query credential is spelt on the wire — 0: authorization=v; 1: the key percent-encoded
+	// (%61uthorization=v); 2: an empty value written without '=' (authorization). net/url parses all three
+	// to the same parameter.
+	QSpell int `json:"query_spelling,omitempty"`
+}
+
+// encode renders the query string with the credential spelt as QSpell says.
+func (a authParts) encode(q url.Values) string {
+	s := q.Encode()
+	switch a.QSpell {
+	case 1:
+		s = strings.ReplaceAll(s, "authorization=", "%61uthorization=")
+	case 2:
+		parts := strings.Split(s, "&")
+		for i, p := range parts {
+			if p == "authorization=" {
+				parts[i] = "authorization"
+			}
+		}
+		s = strings.Join(parts, "&")
+	}
+
+	return s
 }
 
 const hubURL = "/.well-known/mercure"
@@ -331,7 +354,7 @@ func (f *fixture) doPublish(a authParts, contentType, body, rawQuery string) *fa
 	}
 	q, _ := url.ParseQuery(rawQuery)
 	a.apply(r, f.cookie, q)
-	r.URL.RawQuery = q.Encode()
+	r.URL.RawQuery = a.encode(q)
 	w := newRW()
 	f.hub.ServeHTTP(w, r)
 
@@ -350,7 +373,7 @@ func (f *fixture) doGet(a authParts, path string, q url.Values, hdr http.Header)
 		q = url.Values{}
 	}
 	a.apply(r, f.cookie, q)
-	r.URL.RawQuery = q.Encode()
+	r.URL.RawQuery = a.encode(q)
 	w := newRW()
 	f.hub.ServeHTTP(w, r)
 
